@@ -53,9 +53,27 @@ def log(*a):
 
 # ---------------------------------------------------------------- Go side
 
+_harness_copy = None
+
+
+def harness_dir():
+    """The harness module; when VERIF_REPO points at a scratch copy of the repository (mutation
+    experiments), a scratch copy of the harness whose replace directive points there."""
+    global _harness_copy
+    if REPO == "/repo":
+        return HARNESS
+    if _harness_copy is None:
+        d = os.path.join(scratch("harness"), "harness")
+        shutil.copytree(HARNESS, d)
+        gm = open(os.path.join(d, "go.mod")).read().replace("=> /repo", "=> " + REPO)
+        open(os.path.join(d, "go.mod"), "w").write(gm)
+        _harness_copy = d
+    return _harness_copy
+
+
 def sync_gosum():
     src = os.path.join(REPO, "go.sum")
-    dst = os.path.join(HARNESS, "go.sum")
+    dst = os.path.join(harness_dir(), "go.sum")
     try:
         a = open(src).read()
         b = open(dst).read() if os.path.exists(dst) else ""
@@ -77,7 +95,7 @@ def build_driver(pkg, outdir, tags="verif", race=False):
         cmd.append("-race")
     cmd.append("./drivers/" + pkg)
     t0 = time.time()
-    p = subprocess.run(cmd, cwd=HARNESS, env=goenv(), stdout=subprocess.PIPE, stderr=subprocess.STDOUT, text=True)
+    p = subprocess.run(cmd, cwd=harness_dir(), env=goenv(), stdout=subprocess.PIPE, stderr=subprocess.STDOUT, text=True)
     if p.returncode != 0 or not os.path.exists(out):
         raise Broken("building driver %s failed:\n%s" % (pkg, p.stdout[-4000:]))
     log("[build] %s in %.1fs" % (pkg, time.time() - t0))
@@ -87,7 +105,7 @@ def build_driver(pkg, outdir, tags="verif", race=False):
 def build_cmd(pkg, outdir, tags="verif"):
     sync_gosum()
     out = os.path.join(outdir, pkg.replace("/", "_"))
-    p = subprocess.run(["go", "build", "-tags", tags, "-o", out, "./cmd/" + pkg], cwd=HARNESS, env=goenv(),
+    p = subprocess.run(["go", "build", "-tags", tags, "-o", out, "./cmd/" + pkg], cwd=harness_dir(), env=goenv(),
                        stdout=subprocess.PIPE, stderr=subprocess.STDOUT, text=True)
     if p.returncode != 0:
         raise Broken("building cmd %s failed:\n%s" % (pkg, p.stdout[-4000:]))
